@@ -310,6 +310,10 @@ func (w *Writer) Close() error {
 			// in buf.Bytes() returning the whole allocated bytes.
 			w.dataBlock.buf.Reset()
 			w.bpool.Put(w.dataBlock.buf.Bytes())
+			// The buffer now belongs to the pool: a second Close must not
+			// hand it in again (two later Gets would share one array).
+			w.bpool = nil
+			w.dataBlock.buf = util.Buffer{}
 		}
 	}()
 
